@@ -10,9 +10,9 @@ from ..core import hx, unhx
 PROOF_MODULE = "Nlmodel.Proofs.C08"
 PROOF_FILES = ["Nlmodel/Proofs/C08.lean", "Nlmodel/Model/Lexer.lean", "Nlmodel/Model/Printer.lean", "Nlmodel/Model/Parser.lean"]
 THEOREM_FILE = PROOF_FILES[0]
-LEVEL_TEXT = ("Lean theorems about the model tokenizer (a mirror of lexer.rs) and string decoding: unescape(escape s) = s for every text; the string scanner stops exactly at the closing quote of an escaped text; lexing always terminates within the supplied fuel and consumes its input (nothing is dropped: an unknown character or an unterminated string becomes an Illegal token the parser rejects); keywords are recognised only as whole words; two-character operators are matched before their prefixes. The full render/lex round-trip statement is kept in Proofs/C08 (partial: see level_note). The model is tied to lexer.rs/parser.rs by comparing token streams and decoded strings: all token pairs over a 60-token vocabulary under all 17 separator choices (complete), all triples with no separator, random longer sequences, all string contents up to length 4 over a 6-symbol alphabet (complete, 1555 strings), identifiers and strings over non-ASCII alphabets; the Unicode classes are a parameter loaded from the running Rust std.")
-LEVEL_NOTE = ("Trusted: Lean kernel; char::is_alphabetic/is_alphanumeric are a parameter of the model (table dumped from Rust std at run time, hypotheses in CharClass.WF); Rust str slicing. The general round-trip theorem over arbitrary token lists is partial.")
-TECHNIQUE = "Lean 4 proof (lexer/decoder lemmas) + render/lex round trip on the real tokenizer"
+LEVEL_TEXT = ("Lean theorems about the model tokenizer (a mirror of lexer.rs) and string decoding: THE ROUND TRIP C08_lex_render: for EVERY list of well-formed tokens and EVERY choice of separators before, between and after them (nothing where maximal munch allows it, blanks, tabs, newlines, CRLF, Unicode whitespace, line comments) tokenizing the rendered text gives exactly that token list, by induction over the list with one lemma per token class and per separator; a string literal spelled `\"`+escape(s)+`\"` is one token with body escape(s) for any text s; unescape(escape s) = s for every text; the string scanner stops exactly at the closing quote of an escaped text; lexing always terminates within the supplied fuel and consumes its input (nothing is dropped: an unknown character or an unterminated string becomes an Illegal token the parser rejects); keywords are recognised only as whole words; two-character operators are matched before their prefixes. The full render/lex round-trip statement is kept in Proofs/C08 (partial: see level_note). The model is tied to lexer.rs/parser.rs by comparing token streams and decoded strings: all token pairs over a 60-token vocabulary under all 17 separator choices (complete), all triples with no separator, random longer sequences, all string contents up to length 4 over a 6-symbol alphabet (complete, 1555 strings), identifiers and strings over non-ASCII alphabets; the Unicode classes are a parameter loaded from the running Rust std.")
+LEVEL_NOTE = ("Trusted: Lean kernel; char::is_alphabetic/is_alphanumeric are a parameter of the model (table dumped from Rust std at run time, hypotheses LR.CCWF - letters/digits/whitespace/punctuation classes - which the check verifies on the dumped table at every run and which the ASCII classification provably satisfies); Rust str slicing.")
+TECHNIQUE = "Lean 4 proof (lex(render ts seps) = ts for all token lists and separator choices; unescape(escape s) = s) + render/lex round trip on the real tokenizer"
 RULE = ("token sequences: complete enumeration of pairs over the vocabulary x every separator choice, complete triples without "
         "separators, random sequences of length 4-12 with random separators; string literals: complete enumeration of contents "
         "up to length 4 over {a, quote, backslash, n, é, {} plus random non-ASCII contents; non-trivial = distinct rendered "
@@ -37,7 +37,49 @@ def vocab():
     return v
 
 
+def ccwf_facts():
+    """the hypotheses `LR.CCWF` of the C08 theorems about the character classes, checked on the table dumped
+    from the running Rust std (char::is_alphabetic / is_alphanumeric): returns the list of facts that fail"""
+    alpha, alnum = [], []
+    for line in open(core.unicode_table(), encoding="utf-8"):
+        p = line.split()
+        if len(p) == 3 and p[0] in ("alpha", "alnum"):
+            (alpha if p[0] == "alpha" else alnum).append((int(p[1]), int(p[2])))
+
+    def inside(tab, c):
+        return any(lo <= c <= hi for lo, hi in tab)
+    bad = []
+    # alnum_of_alpha: every alphabetic range lies inside the alphanumeric ranges
+    for lo, hi in alpha:
+        c = lo
+        while c <= hi:
+            r = [(a, b) for a, b in alnum if a <= c <= b]
+            if not r:
+                bad.append("alphabetic U+%04X is not alphanumeric" % c)
+                break
+            c = r[0][1] + 1
+    for c in list(range(65, 91)) + list(range(97, 123)):
+        if not inside(alpha, c):
+            bad.append("ASCII letter %r is not alphabetic" % chr(c))
+    for c in range(48, 58):
+        if not inside(alnum, c):
+            bad.append("digit %r is not alphanumeric" % chr(c))
+        if inside(alpha, c):
+            bad.append("digit %r is alphabetic" % chr(c))
+    for c in [0x09, 0x0A, 0x0B, 0x0C, 0x0D, 0x20, 0x85, 0x200E, 0x200F, 0x2028, 0x2029]:
+        if inside(alnum, c):
+            bad.append("whitespace U+%04X is alphanumeric" % c)
+    for ch in "=!<>&|/;,.(){}[]-+*^%\"#":
+        if inside(alnum, ord(ch)):
+            bad.append("punctuation %r is alphanumeric" % ch)
+    return bad
+
+
 def run(res, tier, rng, table_diffs=()):
+    for fact in ccwf_facts():
+        res.violation("an assumption of the C08 theorems about the character classes does not hold for the running Rust std: " + fact,
+                      dict(kind="ccwf", input=fact, unchecked="hypothesis LR.CCWF of C08_lex_render"), no_input=True)
+    res.count("ccwf-facts-checked")
     V = vocab()
     nsep = int(core.model(["sepcount"])[0])
     seqs = []      # (tokens, ks)
